@@ -14,6 +14,7 @@ def _init():
 def map_jobs(fn, jobs, procs: int | None = None, chunksize: int = 4, maxtasks: int | None = 2000):
     """Ordered parallel map. `fn` must be a module-level function."""
     procs = procs or min(os.cpu_count() or 4, 16)
+    _init()  # parent too: children inherit the imports, and unpickled results resolve to /repo
     if len(jobs) <= 2 or procs == 1:
         _init()
         return [fn(j) for j in jobs]
